@@ -737,3 +737,30 @@ func (L *Locks) AccessesOf(field *types.Var) []FieldAccess {
 
 // LockOp classifies a call as a mutex acquire/release.
 func LockOp(i ssa.Instruction) (types.Object, bool, LockMode, bool) { return lockOp(i) }
+
+// LockOpExported: the mutex object, direction and mode of a sync lock call,
+// plus the value whose mutex it is (the struct the mutex field belongs to).
+func LockOpBase(i ssa.Instruction) (obj types.Object, acquire bool, base ssa.Value, ok bool) {
+	o, acq, _, isOp := lockOp(i)
+	if !isOp {
+		return nil, false, nil, false
+	}
+	args := CallArgs(i.(*ssa.Call))
+	v := args[0]
+	for {
+		switch x := v.(type) {
+		case *ssa.FieldAddr:
+			// the outermost struct the (possibly embedded) mutex lives in
+			v = x.X
+			if _, deeper := v.(*ssa.FieldAddr); deeper {
+				continue
+			}
+			return o, acq, v, true
+		case *ssa.UnOp:
+			v = x.X
+			continue
+		}
+		break
+	}
+	return o, acq, v, true
+}
